@@ -10,11 +10,11 @@ use quote::ToTokens;
 
 pub fn contracts() -> Vec<Contract> {
     vec![
-        Contract { name: "cx_fn_grammar", function: "lib.rs::invoke -> entrait_fn::entrait_for_single_fn and everything below it", props: &["C01", "C02", "C03", "C04", "C05", "C11", "C12", "C13", "C16", "C18", "C19"], run: cx_fn },
-        Contract { name: "cx_mod_grammar", function: "lib.rs::invoke -> entrait_fn::{entrait_for_mod, entrait_for_impl_block} and everything below them", props: &["C01", "C02", "C03", "C04", "C07", "C08", "C12", "C13", "C19"], run: cx_mod },
+        Contract { name: "cx_fn_grammar", function: "lib.rs::invoke -> entrait_fn::entrait_for_single_fn and everything below it", props: &["C01", "C02", "C03", "C04", "C05", "C10", "C11", "C12", "C13", "C15", "C16", "C17", "C18", "C19"], run: cx_fn },
+        Contract { name: "cx_mod_grammar", function: "lib.rs::invoke -> entrait_fn::{entrait_for_mod, entrait_for_impl_block} and everything below them", props: &["C01", "C02", "C03", "C04", "C07", "C08", "C12", "C13", "C15", "C19"], run: cx_mod },
         Contract { name: "c07_borrow_from_deps", function: "signature/converter.rs::generate_params / gen_impl_receiver, entrait_trait/mod.rs::gen_impl_trait (delegation-target trait)", props: &["C07", "C03"], run: c07_borrow },
         Contract { name: "c03_module_generic_names", function: "analyze_generics.rs::GenericsAnalyzer (one analyzer shared by all functions of a module / impl block)", props: &["C03"], run: c03_generic_names },
-        Contract { name: "cx_trait_grammar", function: "lib.rs::invoke -> entrait_trait::output_tokens and everything below it", props: &["C06", "C07", "C09", "C12", "C13", "C18", "C19"], run: cx_trait },
+        Contract { name: "cx_trait_grammar", function: "lib.rs::invoke -> entrait_trait::output_tokens and everything below it", props: &["C03", "C06", "C07", "C09", "C12", "C13", "C15", "C18", "C19"], run: cx_trait },
     ]
 }
 
@@ -68,7 +68,9 @@ fn cx_fn(ctx: &Ctx, r: &mut Report) {
         ("concrete", false, "deps: &my::App", &[], false, Some("my :: App"), false),
         ("no-deps", false, "", &[], false, None, true),
     ];
-    let params: [&[(&str, &str)]; 19] = [
+    let params: [&[(&str, &str)]; 21] = [
+        &[("f", "u8"), ("(a, b)", "(u8, u8)")],
+        &[("mut f", "u8"), ("_", "u8"), ("W(w)", "W")],
         &[("W(f)", "W"), ("_", "u8")],
         &[("(a, b)", "(u8, u8)"), ("W(f)", "W"), ("k", "u8")],
         &[("x", "impl Into<u8>")],
@@ -349,7 +351,7 @@ fn cx_fn(ctx: &Ctx, r: &mut Report) {
                     }
                 }
             }
-            if self_bounds != dbounds.iter().map(|s| s.to_string()).collect::<Vec<_>>() {
+            if self_bounds.iter().cloned().collect::<std::collections::BTreeSet<String>>() != dbounds.iter().map(|s| s.to_string()).collect::<std::collections::BTreeSet<String>>() {
                 r.fail("bounds-mismatch", &input, format!("declared bounds [{}] but the impl requires Self: [{}]", dbounds.join(", "), self_bounds.join(", ")));
             }
             let mut other: Vec<String> = im.generics.where_clause.as_ref().map(|w| w.predicates.iter().map(|p| tt_string(p)).filter(|p| !p.starts_with("Self :")).collect()).unwrap_or_default();
@@ -687,6 +689,7 @@ fn member(kind: usize, n: usize, in_impl: bool) -> Member {
         13 => mk(format!("{}async fn f{}<'x, D>(deps: &'x D, s: &'x str) -> &'x str where D: {} + Sq, D: B<u8> {{ s }}", v, n, a), &[a.clone(), "Sq".into(), "B < u8 >".into()], false, true, 1, &[]),
         14 => mk(format!("{}async unsafe fn f{}(deps: &impl {}, p: *const u8) -> u8 {{ *p }}", v, n, a), &[a.clone()], false, true, 1, &[]),
         15 => mk(format!("{}const unsafe extern \"C\" fn f{}(deps: &impl {}) {{}}", v, n, a), &[a.clone()], false, false, 0, &[]),
+        16 => mk(format!("{}fn f{}(deps: &(impl B<u8> + B<u16> + other::B<u8>), x: u8) {{}}", v, n), &["B < u8 >".into(), "B < u16 >".into(), "other :: B < u8 >".into()], false, false, 1, &[]),
         // not part of the trait
         8 => Member { text: format!("fn hidden{}(deps: &impl Hidden) {{}}", n), method: None },
         9 => Member { text: format!("struct S{};", n), method: None },
@@ -699,12 +702,12 @@ fn cx_mod(ctx: &Ctx, r: &mut Report) {
     let max = if ctx.tier == Tier::Thorough { 4 } else { 3 };
     // (attribute for a module, attribute for an impl block, mockable, ?Send)
     let opts: [(&str, bool, bool); 4] = [("", false, false), ("mockall", true, false), ("?Send", false, true), ("unimock, mock_api = TrMock, ?Send", true, true)];
-    r.domain = "module and impl-block bodies: sequences of members from 16 kinds (12 function shapes differing in dependency form, bounds, by-value / async / unsafe, generics and patterns; 4 non-function kinds) x {mod, impl block, impl block with ref, with dyn} x 4 option sets x 3 trait visibilities".into();
+    r.domain = "module and impl-block bodies: sequences of members from 17 kinds (13 function shapes differing in dependency form, bounds, by-value / async / unsafe, generics and patterns; 4 non-function kinds) x {mod, impl block, impl block with ref, with dyn} x 4 option sets x 3 trait visibilities".into();
     r.bound = format!("all sequences of length 1..{} (impl blocks: function kinds other than by-value only); every third (mode, options, visibility) combination per body, rotating", max);
     r.exhaustive = false;
     let mut bodies: Vec<Vec<usize>> = vec![];
     for n in 1..=max {
-        bodies.extend(sequences(16, n));
+        bodies.extend(sequences(17, n));
     }
     let mut rot = seed() as usize;
     for body in bodies {
@@ -918,7 +921,9 @@ fn check_self_bounds(r: &mut Report, input: &str, im: &syn::ItemImpl, subject: &
             }
         }
     }
-    if got != want || n > 1 {
+    // a set comparison: repeating a bound (or not) and the order are immaterial
+    let as_set = |v: &[String]| -> std::collections::BTreeSet<String> { v.iter().cloned().collect() };
+    if as_set(&got) != as_set(want) || n > 1 {
         r.fail("bounds-mismatch", input, format!("declared dependency bounds {:?} but the impl requires {}: {:?}", want, subject, got));
     }
 }
